@@ -502,6 +502,119 @@ def run_ext(c, wd, FlowSampler):
     return res
 
 
+class LockedStore:
+    """a callback object that guards its state with a lock and holds a file handle (cannot be copied / pickled)"""
+
+    def __init__(self):
+        import threading
+        self.lock = threading.Lock()
+        self.fh = open(os.devnull)
+        self.states = []
+
+    def callback(self, state):
+        with self.lock:
+            self.states.append(state)
+
+    def __call__(self, state):
+        self.callback(state)
+
+
+def make_opaque(kind, pools):
+    import threading
+    if kind == "mp_pool":
+        import multiprocessing
+        p = multiprocessing.get_context("fork").Pool(1)
+        pools.append(p)
+        return p
+    if kind == "bound_method_with_lock":
+        return LockedStore().callback
+    if kind == "callable_object_with_lock":
+        return LockedStore()
+    if kind == "lock":
+        return threading.Lock()
+    if kind == "file":
+        return open(os.devnull)
+    if kind == "generator":
+        return (i for i in range(3))
+    return OPAQUE[kind]()
+
+
+def run_construct(c, wd):
+    """FlowSampler(model, output=..., **kwargs) for real, with keyword arguments holding objects that can be
+    neither serialised nor copied; config.json must exist, parse, and hold every keyword argument"""
+    import inspect
+    import shutil
+    from nessai.flowsampler import FlowSampler
+    from nessai.model import Model
+    from nessai.utils.multiprocessing import initialise_pool_variables
+
+    class G(Model):
+        def __init__(self):
+            self.names = ["x", "y"]
+            self.bounds = {"x": [-5.0, 5.0], "y": [-5.0, 5.0]}
+
+        def log_prior(self, x):
+            return np.log(self.in_bounds(x), dtype="float") - np.log(100.0)
+
+        def log_likelihood(self, x):
+            return -0.5 * (x["x"] ** 2 + x["y"] ** 2)
+
+    pools = []
+    out = os.path.join(wd, "construct")
+    shutil.rmtree(out, ignore_errors=True)
+    model = G()
+    initialise_pool_variables(model)
+    aux = {k: make_opaque(kind, pools) for k, kind in c["aux"]}
+    aux_list = [make_opaque(kind, pools) for kind in c["aux_list"]]
+    nested = {"aux": aux, "aux_list": aux_list, "tup": (None, np.float32(0.5))}
+    kw = {"nlive": 50}
+    if c["sampler"] == "ins":
+        kw.update(importance_nested_sampler=True, min_samples=10, training_config=dict(nested, max_epochs=5))
+    else:
+        kw.update(flow_config={"model_config": {"n_blocks": 2, "kwargs": nested}})
+        if c.get("proposal_class"):
+            kw["flow_proposal_class"] = OPAQUE["nessai_class"]()
+    if c.get("pool"):
+        kw["pool"] = make_opaque(c["pool"], pools)
+    if c.get("callback"):
+        kw["checkpoint_callback"] = make_opaque(c["callback"], pools)
+    named = set(inspect.signature(FlowSampler.__init__).parameters)
+    res = {"kwargs": sorted(kw)}
+    try:
+        try:
+            fs = FlowSampler(model, output=out, resume=False, signal_handling=False, close_pool=False, plot=False, **kw)
+        except Exception as e:  # noqa: BLE001
+            import traceback
+            res["raised"] = f"{type(e).__name__}: {e}"[:300]
+            res["where"] = traceback.format_exc(limit=-2)[-400:]
+            res["config_exists"] = os.path.exists(os.path.join(out, "config.json"))
+            return res
+        path = os.path.join(out, "config.json")
+        res["config_exists"] = os.path.exists(path)
+        if not res["config_exists"]:
+            return res
+        try:
+            with open(path) as fh:
+                cfg = json.load(fh)
+        except Exception as e:  # noqa: BLE001
+            res["load_error"] = f"{type(e).__name__}: {e}"[:200]
+            return res
+        passed = {k: v for k, v in dict(kw, plot=False).items() if k not in named}
+        res["missing"] = sorted(k for k in passed if k not in cfg)
+        expect = dict(passed)
+        expect.update(eps=fs.eps, torch_dtype=fs.torch_dtype, importance_sampler=fs.importance_nested_sampler)
+        bad = []
+        cmp_json({k: expect[k] for k in cfg if k in expect}, {k: cfg[k] for k in cfg if k in expect}, [], bad)
+        res["bad"] = bad[:5]
+        res["extra_keys"] = sorted(k for k in cfg if k not in expect)
+        res["desc"] = describe({k: expect[k] for k in cfg if k in expect})
+        res["obs"] = enc_j({k: cfg[k] for k in cfg if k in expect})
+    finally:
+        for p in pools:
+            p.terminate()
+    return res
+
+
 def run_sampler(which, wd):
     import torch
     torch.set_num_threads(1)
@@ -638,6 +751,7 @@ def main():
         from nessai.utils import io
         out["gen"] = [run_gen(c, wd, io) for c in job.get("gen", [])]
         out["ext"] = [run_ext(c, wd, FlowSampler) for c in job.get("ext", [])]
+        out["construct"] = [run_construct(c, wd) for c in job.get("construct", [])]
     json.dump(out, sys.stdout)
 
 
